@@ -54,8 +54,10 @@ def gen_case(rng, tier, ks=None):
             ops.append(("branch", k))
         elif r < 0.92:
             ops.append(("calcroot", k))
-        elif r < 0.97:
+        elif r < 0.95:
             ops.append(("fromdb", k))
+        elif r < 0.97:
+            ops.append(("reopen",))
         else:
             ops.append(("set", k[:-1] if rng.random() < 0.5 else k + b"\x00", b"v"))   # wrong length
     ops.append(("root",))
@@ -91,6 +93,9 @@ def run_impl(case):
         elif k == "fromdb":
             outs.append(guard(lambda: bytes(SparseMerkleTree.from_db(t.db, t.root_hash, key_size=case["ks"],
                                                                     default=case["default"]).get(op[1]))))
+        elif k == "reopen":
+            t = SparseMerkleTree.from_db(t.db, t.root_hash, key_size=case["ks"], default=case["default"])
+            outs.append(None)
         else:
             outs.append(bytes(t.root_hash))
         aux.append(bytes(t.root_hash))
@@ -229,6 +234,8 @@ def cop(op):
              "fromdb": "MFromDbGet"}
     if k == "root":
         return "MRoot"
+    if k == "reopen":
+        return "MReopen"
     return f"{names[k]} {cb(op[1])}"
 
 
@@ -259,6 +266,8 @@ def nontrivial(case):
 def corpus():
     k = b"\x53"
     return [
+        {"ks": 1, "default": b"d", "ops": [("set", k, b"v"), ("reopen",), ("get", k), ("delete", k), ("get", k), ("exists", k),
+                                          ("set", b"\x01", b"w"), ("delete", b"\x01"), ("root",)]},
         {"ks": 1, "default": b"", "ops": [("set", k, b"v"), ("get", k), ("branch", k), ("calcroot", k), ("set", b"\x52", b"w" * 40),
                                           ("get", b"\x52"), ("delete", k), ("get", k), ("exists", k), ("delete", b"\x52"), ("root",)]},
         {"ks": 2, "default": b"d", "ops": [("get", b"\x00\x01"), ("set", b"\x00\x01", b""), ("get", b"\x00\x01"), ("exists", b"\x00\x01"),
